@@ -271,24 +271,32 @@ def reduce_rule(ctx, d2):
             d2.ok(cons, '(%s) lines up with %s(%s)' % (', '.join(src(a) for a in args), ctor, ', '.join(params)), f)
     # from_data forwards every reduce-fed parameter to __init__ / set_data
     g = prog.method('Stream', 'from_data', rel=ST)
-    t = ' '.join(ast.unparse(g.node).split())
-    need = ['characterization_factors=characterization_factors', 'price=price', 'thermo=thermo', 'self.set_data(data)']
-    miss = [x for x in need if x not in t]
-    init_call = [n for n in walk_no_nested(g.node) if isinstance(n, ast.Call) and src(n.func) == 'self.__init__']
-    if not miss and init_call and init_call[0].args and src(init_call[0].args[0]) == 'ID':
+    inst = [n.targets[0].id for n in walk_no_nested(g.node) if isinstance(n, ast.Assign) and isinstance(n.targets[0], ast.Name)
+            and isinstance(n.value, ast.Call) and src(n.value.func).endswith('__new__')]
+    V = inst[0] if inst else 'self'
+    init_call = [n for n in walk_no_nested(g.node) if isinstance(n, ast.Call) and src(n.func) == V + '.__init__']
+    setd = [n for n in walk_no_nested(g.node) if isinstance(n, ast.Call) and src(n.func) == V + '.set_data' and [src(a) for a in n.args] == [g.params[1]]]
+    kw = {k.arg: src(k.value) for k in init_call[0].keywords} if init_call else {}
+    need = [x for x in ('characterization_factors', 'price', 'thermo') if kw.get(x) != x]
+    rets = [r for r in walk_no_nested(g.node) if isinstance(r, ast.Return)]
+    if init_call and setd and not need and init_call[0].args and src(init_call[0].args[0]) == 'ID' and rets and src(rets[0].value) == V:
         d2.ok('Stream.from_data', 'forwards ID, price, characterization_factors, thermo to __init__ and restores the data', g)
     else:
-        d2.fail('Stream.from_data', 'forwarding', 'from_data does not forward %s' % (miss or 'ID'), g, g.node)
+        d2.fail('Stream.from_data', 'forwarding', 'from_data does not forward %s' % (need or 'ID / data'), g, g.node)
     # cucumber
     gs = prog.func(PK, 'get_state')
-    t = ' '.join(ast.unparse(gs.node).split())
-    if 'sum([i.__slots__ for i in cls.mro()[:-1]], ())' in t and 'getfields(obj, slots)' in t:
+    slots_ok = any(isinstance(n, ast.ListComp) and isinstance(n.elt, ast.Attribute) and n.elt.attr == '__slots__'
+                   and 'mro()[:-1]' in src(n.generators[0].iter) for n in ast.walk(gs.node))
+    getf = [n for n in ast.walk(gs.node) if isinstance(n, ast.Call) and src(n.func) == 'getfields' and n.args and src(n.args[0]) == gs.params[0]]
+    if slots_ok and getf:
         d2.ok('cucumber.get_state', 'state = every slot of every class in the MRO', gs)
     else:
         d2.fail('cucumber.get_state', 'slots', 'get_state does not collect the slots of the whole MRO', gs, gs.node)
     nf = prog.func(PK, 'new_from_state')
-    t = ' '.join(ast.unparse(nf.node).split())
-    if 'object.__new__(cls)' in t and 'setfields(obj, slots, values' in t:
+    objs = [n.targets[0].id for n in walk_no_nested(nf.node) if isinstance(n, ast.Assign) and isinstance(n.targets[0], ast.Name)
+            and src(n.value) == 'object.__new__(%s)' % nf.params[0]]
+    setf = [n for n in ast.walk(nf.node) if isinstance(n, ast.Call) and src(n.func) == 'setfields' and len(n.args) >= 3]
+    if objs and setf and [src(a) for a in setf[0].args[:3]] == [objs[0], nf.params[1], nf.params[2]]:
         d2.ok('cucumber.new_from_state', 'restores the same slots on a bare instance', nf)
     else:
         d2.fail('cucumber.new_from_state', 'restore', 'new_from_state does not restore the recorded slots', nf, nf.node)
